@@ -237,7 +237,7 @@ def textbook():
     add("lotka-volterra", ["X >> 2 X", "X + Y >> 2 Y", "Y >> 0"], delta=1, wr=False)
     add("brusselator", ["0 >> X", "X >> Y", "2 X + Y >> 3 X", "X >> 0"], delta=1, wr=False)
     add("horn-jackson", ["3 A >> A + 2 B", "A + 2 B >> 3 B", "3 B >> 2 A + B", "2 A + B >> 3 A"], delta=2, wr=True)
-    add("feinberg-2A=B,A+C=D", ["2 A <> B", "A + C <> D", "D >> B + E", "B + E >> A + C"], delta=1, wr=True)
+    add("feinberg-2A=B,A+C=D", ["2 A <> B", "A + C <> D", "D >> B + E", "B + E >> A + C"], delta=0, wr=True)
     add("triangle", ["A >> B", "B >> C", "C >> A"], delta=0, wr=True)
     add("open-chain", ["0 >> A", "A >> B", "B >> 0"], delta=0, wr=True)
     add("autocat", ["A + B >> 2 B", "B >> A"], delta=1, wr=False)
